@@ -150,7 +150,7 @@ def utils_obligations():
 
 CHECKS_FUNCS = ["check_data_names", "check_extra_coords_names", "check_data", "check_coordinates", "check_fit_input"]
 CHECKS_THEOREMS = ["src_check_data_names_eq", "src_check_extra_coords_names_eq", "src_check_data_eq",
-                   "src_check_coordinates_eq", "src_check_fit_input_eq"]
+                   "src_check_coordinates_eq", "src_check_fit_input_eq", "src_check_fit_input_gen"]
 CHECKS_IMPORTS = "From Verde Require Import Model.Checks Proofs.PyLiteBridge."
 
 
@@ -219,3 +219,17 @@ def chain_obligations():
     To hook it: `obligations = pylite_tie.chain_obligations` in harness/c06.py"""
     return tie("ChainSrc", os.path.join("verde", "chain.py"), CHAIN_FUNCS, CHAIN_TEMPLATES,
                CHAIN_THEOREMS, CHAINV_IMPORTS)
+
+
+GRIDDER_FUNCS = ["get_instance_region", "BaseGridder._get_dims", "BaseGridder._get_data_names",
+                 (_BASE_UTILS, "check_data_names"), "BaseGridder._get_extra_coords_names"]
+GRIDDER_THEOREMS = ["src_get_instance_region_eq", "src_BaseGridder_get_dims_eq", "src_BaseGridder_get_data_names_eq",
+                    "src_BaseGridder_get_extra_coords_names_eq"]
+GRIDDER_IMPORTS = "From Verde Require Import Model.Gridder Proofs.PyLiteBridge."
+
+
+def gridder_obligations():
+    """verde/base/base_classes.py get_instance_region, BaseGridder._get_dims / _get_data_names /
+    _get_extra_coords_names against the naming and defaulting rules of Model/Gridder.v (property C05);
+    to hook it: `obligations = pylite_tie.gridder_obligations` in harness/c05.py"""
+    return tie("GridderSrc", _BASE_CLASSES, GRIDDER_FUNCS, "pylite_gridder.v.tmpl", GRIDDER_THEOREMS, GRIDDER_IMPORTS)
